@@ -141,7 +141,9 @@ def run(chk):
     saved = manipulate.interpolation.InterpolatorDispatcher
     manipulate.interpolation.InterpolatorDispatcher = FakeDisp
     try:
-        for nm, tg, ig in (("target_only", tgt, None), ("input_only", None, inp), ("both", tgt, inp)):
+        same_t, same_i = G("current grid again (target)", list(old.raw)), G("current grid again (input)", list(old.raw))
+        for nm, tg, ig in (("target_only", tgt, None), ("input_only", None, inp), ("both", tgt, inp),
+                           ("target_is_current_input_new", same_t, inp), ("target_new_input_is_current", tgt, same_i), ("both_are_current", same_t, same_i)):
             built.clear()
             tag = f"C42.xgrid[{nm}]"
             try:
@@ -162,7 +164,7 @@ def run(chk):
                     want_e = np.einsum("ajbk,kl->ajbl", want_e, M)
                 else:
                     ok_build = False
-            chk.ground(f"{tag}.dispatchers", ok_build and len(built) == (tg is not None) + (ig is not None), fn=fng, replay=rp,
+            chk.ground(f"{tag}.dispatchers", ok_build and len(built) == (tg is not None and tg is not same_t) + (ig is not None and ig is not same_i), fn=fng, replay=rp,
                        goal="target side: basis on the operator grid evaluated at the target grid; input side: basis on the input grid evaluated at the operator grid; x-space mode, given degree")
             chk.eq_block(f"{tag}.operator", r.operator, want_o, fn=fng, replay=rp, goal="interpolation matrices contracted with the output resp. input grid index")
             chk.eq_block(f"{tag}.error", r.error, want_e, fn=fng, replay=rp, goal="errors through the same contraction")
